@@ -1,7 +1,7 @@
 SPECIFICATION Spec
 CONSTANTS
   NP = 2
-  MaxNums = 3
+  MaxNums = 2
   Dev <- NoDev
   Emit = TRUE
 INVARIANTS FunctionForm E C Domain CarryExplained EmitInv
